@@ -97,6 +97,9 @@ SeqSources ==
     {[e |-> Var("xs"), ctx |-> ("xs" :> IntList(n)), tag |-> "list"] : n \in 0..MaxList}
     \cup {[e |-> Var("xs"), ctx |-> ("xs" :> StrList(n)), tag |-> "strs"] : n \in 0..MaxList}
     \cup {[e |-> Var("xs"), ctx |-> ("xs" :> IntsTyped(n)), tag |-> "ints"] : n \in 0..MaxList}
+    \* Go arrays: of ints, of untyped values; a list of pairs (arrays of two untyped values) walked by a loop in a loop
+    \cup {[e |-> Var("xs"), ctx |-> ("xs" :> VLg(IntList(n).xs, "arrany")), tag |-> "array"] : n \in 1..MaxList}
+    \cup {[e |-> Var("xs"), ctx |-> ("xs" :> VLg(IntList(3).xs, "arr3")), tag |-> "array"]}
     \cup {[e |-> Lit(IntList(n)), ctx |-> EmptyFn, tag |-> "listlit"] : n \in 0..MaxList}
     \cup {[e |-> Var("s"), ctx |-> ("s" :> VS(s)), tag |-> "str"] : s \in Strings}
     \cup {[e |-> LS(s), ctx |-> EmptyFn, tag |-> "strlit"] : s \in Strings \ {<<>>}}
@@ -221,7 +224,12 @@ NameClashCases ==
               @@ ("t2" :> <<T1(91), Block("b1", <<T1(80), PrintS(Var("y"))>>), Block("b2", <<PrintS(Var("x"))>>), T1(93)>>),
       prog |-> <<Extends(LS(NT.t1)), Set("x", LI(1)), Block("b2", <<T1(60), PrintS(Var("x")), PrintS(Var("y")), T1(62)>>)>>]}
 
-AllCases == NestedIfCases \cup GuardCases \cup NameClashCases \cup NamedCases \cup RecCases \cup GlobalCases \cup IfCases \cup EmptyBranchCases \cup NullCases \cup CompIfCases \cup LitIfCases \cup LoopCases \cup KvCases \cup NestCases \cup Nest3 \cup SetCases
+\* a loop whose sequence depends on the enclosing loop's variable (a range with that step; a slice from that index); pairs
+DepCases == {[fam |-> "dep", ctx |-> ("ps" :> VL(<<VLg(<<VI(1), VS(<<97>>)>>, "arrany"), VLg(<<VI(2), VS(<<98>>)>>, "arrany")>>)), tags |-> {"for", "nested", "dependent"},
+              prog |-> <<For1("s", Arr(<<LI(1), LI(2), LI(5)>>), <<For("i", "", Call("range", <<LI(0), LI(10), Var("s")>>), <<PrintS(Var("i")), T1(44)>>, <<T1(69)>>, TRUE), T1(59)>>),
+                         For1("s", Arr(<<LI(3), Un("-", LI(3))>>), <<For("i", "", Call("range", <<LI(9), LI(0), Var("s")>>), <<PrintS(Var("i")), T1(44)>>, <<T1(69)>>, TRUE), T1(59)>>),
+                         For1("p", Var("ps"), <<For1("v", Var("p"), <<PrintS(Var("v")), T1(46)>>), T1(59)>>)>>]}
+AllCases == DepCases \cup NestedIfCases \cup GuardCases \cup NameClashCases \cup NamedCases \cup RecCases \cup GlobalCases \cup IfCases \cup EmptyBranchCases \cup NullCases \cup CompIfCases \cup LitIfCases \cup LoopCases \cup KvCases \cup NestCases \cup Nest3 \cup SetCases
 
 Tps(c) == ("main" :> c.prog) @@ (IF "tps" \in DOMAIN c THEN c.tps ELSE EmptyFn)
 World(c) == MkW(Tps(c), {}, {}, NoFault)
